@@ -30,7 +30,27 @@ class FftEntered(Exception):
     pass
 
 
+F32_MAX = sp.Rational(340282346638528859811704183484516925440)
+
+
 class CInterp(vecint.VInterp):
+    def binop(self, op, a, b, n):
+        # range bookkeeping for R18.5: the largest scalar divisor and the largest scalar value met on the way (exact numbers; the polynomial operators are
+        # inlined, so every coefficient operation passes here)
+        v = vecint.VInterp.binop(self, op, a, b, n)
+        try:
+            if op in ("Div", "DivAssign") and getattr(b, "is_number", False) and not str(n.get("ty", "")).startswith(("u", "i")):
+                m = abs(b)
+                if m > self.shared.get("max_div", 0):
+                    self.shared["max_div"] = m
+            if getattr(v, "is_number", False) and v.is_finite and not str(n.get("ty", "")).startswith(("u", "i")):
+                m = abs(v)
+                if m > self.shared.get("max_val", 0):
+                    self.shared["max_val"] = m
+        except Exception:
+            pass
+        return v
+
     def ev_MCall(self, n):
         if n["name"] in ("dft", "idft") and (n.get("def") or "").startswith("polynomial::Polynomial"):
             raise FftEntered()
@@ -83,6 +103,14 @@ def run(F, run, tier):
                       "%s(%d) has %d coefficients (leading %s): the degree is not exactly n" % (fam, n, len(cs), cs[-1] if cs else None))
             run.check(P.get("tolerance") == tol, "R18.3", path, "tolerance:" + inst, where,
                       "the returned polynomial's zero tolerance is %s, not the requested one" % P.get("tolerance"))
+            # R18.5 "for every index in the range where the monomial form is representable": the way there must be representable too, in every coefficient
+            # field the constructors are generic over — f32 is the narrowest, and a complex division squares its divisor's modulus (num-complex: norm_sqr)
+            md, mv = it.shared.get("max_div", 0), it.shared.get("max_val", 0)
+            if tol == TOLS[0]:
+                run.check(md ** 2 < F32_MAX and mv < F32_MAX, "R18.5", path, "range:n=%d" % n, where,
+                          "%s(%d) meets the scalar value %s and divides by %s on the way: %s exceeds the f32 range (3.4e38) — over Complex<f32> the division's squared modulus overflows "
+                          "and the high coefficients come out 0 or NaN although the result is representable" % (fam, n, sp.N(mv, 4), sp.N(md, 4), "the divisor squared" if md ** 2 >= F32_MAX else "a value"),
+                          sample="%s(%d): max divisor %s, max value %s" % (fam, n, sp.N(md, 3), sp.N(mv, 3)))
         run.check(not fft_ns, "R18.4", path, "exact-path:tol=1e-%d" % (len(str(tol.q)) - 1), where,
                   "for n in %s the constructor multiplies two polynomials of three or more coefficients, which goes through the floating-point FFT (dft/idft): "
                   "the coefficients are no longer exact and spurious leading noise raises the degree" % (fft_ns[:12],),
